@@ -275,6 +275,23 @@ LITERALS = [
     "1.", "1.0", "0.5", "3.25", "1.5e-3", "1E5", "2e+2", "1e0", "12.5E-1", "6.02e23", "1.e2", "0.1", "100.001",
 ]  # fmt: skip
 STRINGS = ["", "abc", "with space", "it's", "ünïcödé", "a,b;c", "tab\tin", "1+2", "end M;"]
+# Strings with Modelica escape sequences, as spelled in the source (between the quotes).  pymoca keeps the raw
+# text; resolving the escapes would be right as well.  Anything else (e.g. a codec that mangles the non-ASCII
+# characters next to an escape) is a wrong literal value.
+ESCAPED = ['a\\"b', "tab\\tin", '20 \\"°C\\"', "back\\\\slash", "é\\nü", "q\\?", "x\\'y", "€ 5 \\\\ ½"]
+_ESC = {"'": "'", '"': '"', "?": "?", "\\": "\\", "a": "\a", "b": "\b", "f": "\f", "n": "\n", "r": "\r", "t": "\t", "v": "\v"}
+
+
+def unescape(raw):
+    out, i = [], 0
+    while i < len(raw):
+        if raw[i] == "\\" and i + 1 < len(raw) and raw[i + 1] in _ESC:
+            out.append(_ESC[raw[i + 1]])
+            i += 2
+        else:
+            out.append(raw[i])
+            i += 1
+    return "".join(out)
 
 
 def check_literals(_):
@@ -288,7 +305,7 @@ def check_literals(_):
     for i, s in enumerate(LITERALS):
         decl.append("  Real n%d;" % i)
         eqs.append("  n%d = %s;" % (i, s))
-    for i, s in enumerate(STRINGS):
+    for i, s in enumerate(STRINGS + ESCAPED):
         decl.append("  String s%d;" % i)
         eqs.append('  s%d = "%s";' % (i, s))
     decl.append("  Boolean t, f;")
@@ -298,10 +315,12 @@ def check_literals(_):
     if tree is None:
         return 0, [("literal-rejected", "literal model does not parse", {"text": txt})]
     got = [e.right for e in tree.classes["L"].equations]
-    want = [X.num_value(s) for s in LITERALS] + list(STRINGS) + [True, False]
-    spell = LITERALS + ['"%s"' % s for s in STRINGS] + ["true", "false"]
+    want = [X.num_value(s) for s in LITERALS] + list(STRINGS) + list(ESCAPED) + [True, False]
+    spell = LITERALS + ['"%s"' % s for s in STRINGS + ESCAPED] + ["true", "false"]
     for g, w, sp in zip(got, want, spell):
         n += 1
+        if isinstance(w, str) and w in ESCAPED and isinstance(g, ast.Primary) and g.value == unescape(w):
+            continue  # escapes resolved correctly: also a faithful value
         if not isinstance(g, ast.Primary) or type(g.value) is not type(w) or g.value != w:
             viol.append(("literal-value", "literal %s parsed as %r, expected %r (%s)" % (sp, getattr(g, "value", g), w, type(w).__name__), {"literal": sp}))
     return n, viol
